@@ -3,7 +3,7 @@
    the faithful model of the decode loop (quirks included), for EVERY byte string.
    What a Gallina function cannot exhibit (real stack depth, real allocation) is observed by the
    runner (child-process deep inputs, MemStats); see DESIGN.md §6 C06: the level is partial there. *)
-From CP Require Import Extra DecodeTotal.
+From CP Require Import Extra AllocSize DecodeTotal AllocLinear.
 Local Open Scope N_scope.
 
 (* no input makes the decoder panic (index out of range, nil dereference) *)
@@ -39,6 +39,29 @@ Theorem accepted_is_well_typed : forall sch discard, wf sch = true -> forall mid
   (init = VNil \/ wt_msg sch mid init = true) ->
   pulsar_unmarshal sch discard mid init bs = Ok m -> wt_msg sch mid m = true.
 Proof. exact DecodeTotal.accepted_wt. Qed.
+
+(* allocation is linear in the input: the logical size (AllocSize.vsize: one unit per node, one per byte held) of whatever
+   the decoder builds exceeds what it started from by at most (max field count + 1) units per input byte, for ALL byte
+   strings, schemas and targets. This statement was FALSE of the code as found: a map-entry key or value could claim the
+   bytes that follow its entry, which the enclosing loop then decoded again — quadratic memory with string keys,
+   exponential with message M { map<int32,M> m = 1; } (120 bytes -> 1,048,576 messages). The attempt to prove it exposed
+   the defect; /repo 8507b6c bounds entry subfields by the entry, Decode.v follows the fixed code, and the old witnesses are
+   now rejected (AllocLinear.overrun_quadratic_rejected, overrun_exponential_rejected). Capacity pre-allocation of packed
+   runs and transient allocation on rejected inputs are not modelled (the runner measures them). *)
+Theorem alloc_linear : forall sch discard mid init bs r, wf sch = true ->
+  pulsar_unmarshal sch discard mid init bs = Ok r ->
+  (vsize r <= vsize (start_msg sch mid init) + (max_fields sch + 1) * length bs)%nat.
+Proof. exact AllocLinear.alloc_linear. Qed.
+
+Theorem alloc_linear_fresh : forall sch discard mid bs r, wf sch = true -> (mid < length sch)%nat ->
+  pulsar_unmarshal sch discard mid VNil bs = Ok r ->
+  (vsize r <= (max_fields sch + 2) + (max_fields sch + 1) * length bs)%nat.
+Proof. exact AllocLinear.alloc_linear_fresh. Qed.
+
+(* the constant is optimal: with one unit less per byte the bound fails *)
+Theorem alloc_bound_is_tight : exists sch bs r, wf sch = true /\ pulsar_unmarshal sch false 0 VNil bs = Ok r /\
+  (vsize (start_msg sch 0 VNil) + (max_fields sch + 0) * length bs < vsize r)%nat.
+Proof. exact AllocLinear.alloc_linear_K0_false. Qed.
 
 Example total_example :
   pulsar_unmarshal rec_schema false 0 VNil [x0a; xff; xff; xff; xff; xff; xff; xff; xff; xff; x01] = Err /\
